@@ -89,8 +89,8 @@ theorem query_is_result_then_addr (parsed a : Bytes) : queryContent parsed a = p
 
 /-- **3b. strip/append inverse**: what is reported is exactly the signed string without its
 trailing 20 bytes – `strip (x ++ a) = x` for a 20-byte `a`, and `strip c ++ (last 20 bytes) = c`
-for every `c` of at least 20 bytes; shorter strings make the Go code panic (`make([]byte, t)`,
-`t < 0`), which the model says explicitly. -/
+for every `c` of at least 20 bytes; a shorter string is reported as an error and skipped
+(since /repo 419bec9; the pinned commit panicked in `make([]byte, t)`, `t < 0`). -/
 theorem strip_append (x a : Bytes) (ha : a.length = 20) : stripResult Gen.stripLen (x ++ a) = .ok x := by
   have h20 : Gen.stripLen = 20 := c07_constants.2.2.2
   simp [stripResult, h20, ha]
@@ -102,8 +102,8 @@ theorem append_strip (c : Bytes) (hc : 20 ≤ c.length) :
   · simp [stripResult, h20]; omega
   · simp
 
-theorem strip_short_panics (c : Bytes) (hc : c.length < 20) :
-    stripResult Gen.stripLen c = .panicNegativeLen := by
+theorem strip_short_skipped (c : Bytes) (hc : c.length < 20) :
+    stripResult Gen.stripLen c = .tooShort := by
   have h20 : Gen.stripLen = 20 := c07_constants.2.2.2
   simp [stripResult, h20, hc]
 
@@ -147,7 +147,7 @@ example : sysContent 32 258 [7] = List.replicate 30 0 ++ [1, 2, 7] := by decide
 example : (sysContent 32 (2 ^ 256 + 5) []).length = 32 ∧ beNat (sysContent 32 (2 ^ 256 + 5) []) = 5 := by decide
 example : padOrTrim [1, 2, 3] 2 = [2, 3] := by decide
 example : stripResult 20 (List.replicate 25 1) = .ok (List.replicate 5 1) := by decide
-example : stripResult 20 [1, 2] = .panicNegativeLen := by decide
+example : stripResult 20 [1, 2] = .tooShort := by decide
 example : submitterIdx (2 ^ 64 + 5) 3 = some 2 ∧ submitterIdx 5 3 = some 2 := by decide
 example : userContent 0 256 1 [9] = [1, 0, 1, 9] := by decide
 
